@@ -110,12 +110,43 @@ def run_model(ctx, name, imports, exprs, shard=400, timeout=900):
     return res
 
 
-def run_c(binary, lines, timeout=600):
-    """lines: 'fn hex hex ...' ; returns list of lists of bit strings (one list per line)."""
+def _run_c_raw(binary, lines, timeout):
     rc, out, err = vlib.sh2([str(binary)], stdin="\n".join(lines) + "\n", timeout=timeout)
-    if rc != 0:
-        raise vlib.CheckError("C harness failed rc=%d: %s" % (rc, (out[-300:] + err[-1200:])))
-    return [ln.split() for ln in out.splitlines()]
+    return rc, [ln.split() for ln in out.splitlines()], err
+
+
+def run_c(binary, lines, timeout=600, crashes=None, max_crashes=3):
+    """lines: 'fn hex hex ...' ; returns list of lists of bit strings (one list per line).
+    If the harness aborts (sanitizer report, signal), the first crashing case is located by bisection, recorded in
+    `crashes` as (index, stderr excerpt) with an empty result for it, and the run continues after it; without a
+    `crashes` list (or after max_crashes) a crash raises CheckError."""
+    res = []
+    start = 0
+    ncr = 0
+    while start < len(lines):
+        rc, out, err = _run_c_raw(binary, lines[start:], timeout)
+        if rc == 0:
+            res.extend(out)
+            break
+        if crashes is None or ncr >= max_crashes:
+            raise vlib.CheckError("C harness failed rc=%d: %s" % (rc, err[-1500:]))
+        lo, hi = 0, len(lines) - start          # smallest prefix length that crashes is in (lo, hi]
+        while hi - lo > 1:
+            mid = (lo + hi) // 2
+            rc2, _, _ = _run_c_raw(binary, lines[start:start + mid], timeout)
+            if rc2 == 0:
+                lo = mid
+            else:
+                hi = mid
+        rc3, out3, _ = _run_c_raw(binary, lines[start:start + lo], timeout) if lo else (0, [], "")
+        rc4, _, err4 = _run_c_raw(binary, [lines[start + lo]], timeout)
+        res.extend(out3)
+        res.append([])
+        m = [l for l in (err4 or err).splitlines() if "ERROR" in l or "runtime error" in l or "SUMMARY" in l]
+        crashes.append((start + lo, (" | ".join(m[:3]) or (err4 or err)[-300:])[:500]))
+        ncr += 1
+        start = start + lo + 1
+    return res
 
 
 def fval(b):
